@@ -123,6 +123,20 @@ Theorem C19_nameonly_pruning_refuted :
     /\ ~ In dg (snd (lint_nameonly c rt cfg an)).
 Proof. exact nameonly_pruning_refuted. Qed.
 
+(* A round that re-analyses nothing (analyse() called again, an edit of a file without design units,
+   removal of a unit nothing depends on) emits exactly the cached diagnostics of the existing units;
+   skipping the linters in such a round (seeded change C19-m5) loses every warning. *)
+Theorem C19_noop_round_exact : forall c rt cfg,
+  snd (lint c rt cfg []) = emit cfg (filter (fun kv => primary_exists rt (fst kv)) c).
+Proof. exact noop_round_exact. Qed.
+
+Theorem C19_skip_empty_refuted :
+  exists c rt cfg dg,
+    cache_ok c rt /\ analyzed_covers rt rt []
+    /\ In dg (snd (lint c rt cfg [])) /\ spec_output rt cfg dg
+    /\ ~ In dg (snd (lint_skip_empty c rt cfg [])).
+Proof. exact skip_empty_refuted. Qed.
+
 (* Config::append: when layered configurations define the same library, the LAST definition decides
    is_third_party (and hence whether the library is linted). *)
 Theorem C19_config_append_last_wins :
@@ -187,6 +201,8 @@ Print Assumptions C19_nofilter_refuted.
 Print Assumptions C19_emit_nofilter_refuted.
 Print Assumptions C19_stale_cache_refuted.
 Print Assumptions C19_nameonly_pruning_refuted.
+Print Assumptions C19_noop_round_exact.
+Print Assumptions C19_skip_empty_refuted.
 Print Assumptions C19_config_append_last_wins.
 Print Assumptions C19_config_append_keepflag_refuted.
 Print Assumptions C19_hyps_satisfiable.
